@@ -56,6 +56,29 @@ class VCase:
         self.check_repeat = True
         self.instrument = instrument    # instrument(root, T) -> finalize() -> [(fact name, bool)]   (ghost state, e.g. invocation counters)
 
+    def on_crash(self, why):
+        """the symbolic run killed the worker: decide natively (float64, central differences) at a few sampled points"""
+        import random
+        rng = random.Random(repr(sorted(self.key.items(), key=lambda kv: kv[0])))
+        for _ in range(3):
+            p = sample_point(self, rng, None)
+            try:
+                o = native_forward(self, p)
+                for n in var_names("g", o.shape):
+                    p[n] = rng.choice([-1, 1]) * rng.uniform(0.3, 2.0)
+                o, grads, g = native_run(self, p)
+                for l in self.leaves:
+                    if not l.requires_grad:
+                        continue
+                    fd = fd_vjp(self, p, l, o.shape)
+                    gi = grads[l.name]
+                    if gi is None or gi.shape != fd.shape or not np.allclose(gi, fd, rtol=1e-5, atol=1e-7):
+                        return {"failure": {"obligation": "%s.backward.post[%s]" % (self.name, l.name), "what": "symbolic run crashed (%s); natively the gradient %s differs from finite differences %s"
+                                            % (why, None if gi is None else gi.tolist(), fd.tolist()), "reproduced": True, "replay": {"inputs": p}}}
+            except Exception as e:
+                return {"native_exception": "%s: %s" % (type(e).__name__, e)}
+        return {"native": "agrees with finite differences at 3 points"}
+
     def describe(self):
         return {"case": self.name, **{k: core_json(v) for k, v in self.key.items()},
                 "leaves": {l.name: list(l.shape) for l in self.leaves}}
@@ -204,7 +227,7 @@ def _same_term(x, y):
 
 
 class PathResult:
-    __slots__ = ("status", "out", "g", "grads", "frames", "exc", "phase")
+    __slots__ = ("status", "out", "g", "grads", "frames", "exc", "phase", "defined")
 
 
 def _symbolic_paths(case, eps_mode):
@@ -227,6 +250,8 @@ def _symbolic_paths(case, eps_mode):
             r = PathResult()
             r.exc = None
             r.phase = None
+            r.defined = []
+            sess.defined = []
             T = {}
             datas = {}
             for l in case.leaves:
@@ -287,6 +312,7 @@ def _symbolic_paths(case, eps_mode):
             for l in case.leaves:
                 if not l.requires_grad:
                     fr.append(("no-grad-for-non-requiring[%s]" % l.name, T[l.name]._grad is None))
+            r.defined = [t for kind, t in sess.defined if kind == "division"]
             if rep_ok is not None:
                 fr.append(("repeat-gives-identical-result", rep_ok))
             if fin is not None:
@@ -451,6 +477,9 @@ def _run_mode(case, seed, eps_mode, want_post, probe=False):
                 else:
                     out["undecided"].append({"obligation": oname + str(list(k)), "reason": "%s %s; no numeric difference found"
                                              % (v.backend, v.status)})
+    # ---- defined: every division executed has a non-zero divisor on the whole domain (else: a legal input where the result is 0/0)
+    if want_post and not out["failures"] and not out.get("probe_failed"):
+        _defined_obligations(case, sess, results, rng, out_shape, out)
     # one witness per (obligation) and case is enough; count the rest
     seen = {}
     uniq = []
@@ -465,6 +494,64 @@ def _run_mode(case, seed, eps_mode, want_post, probe=False):
     if out_shape is not None and not out["failures"]:
         _faithfulness(case, sess, results, leafsyms, rng, out_shape, out)
     return out
+
+
+def _defined_obligations(case, sess, results, rng, out_shape, out):
+    from .core import _syntactically_positive
+    from .discharge import _model_env
+    seen = set()
+    for r, pc in results:
+        if r.status != "ok":
+            continue
+        for t in r.defined:
+            if t.get_id() in seen or _syntactically_positive(t):
+                continue
+            seen.add(t.get_id())
+            sv = z3.Solver()
+            sv.set("timeout", 3000)
+            sv.add(*sess.pre)
+            sv.add(*pc)
+            sv.add(*sess.relevant_axioms(list(sess.pre) + list(pc) + [t]))
+            sv.add(t == 0)
+            res = sv.check()
+            if res == z3.unsat:
+                out["obligations"] += 1
+                out["discharged"] += 1
+                out["backends"]["z3"] = out["backends"].get("z3", 0) + 1
+                continue
+            if res != z3.sat:
+                out["notes"].append("a divisor could not be shown non-zero (solver unknown); not counted")
+                continue
+            # a legal input with a zero divisor: replay it natively; it is a violation only if the real gradient is wrong there
+            m = _model_env(sv.model())
+            p = sample_point(case, rng, out_shape)
+            p.update({k: v for k, v in m.items() if k in p})
+            if not _pc_holds(list(sess.pre), p):
+                continue
+            try:
+                o, grads, g = native_run(case, p)
+            except Exception:
+                continue
+            if not np.all(np.isfinite(o)):
+                out["notes"].append("zero divisor only where the forward value itself is not finite (outside the op's domain); ignored")
+                continue
+            for l in case.leaves:
+                if not l.requires_grad or grads[l.name] is None:
+                    continue
+                gi = grads[l.name]
+                if np.all(np.isfinite(gi)):
+                    continue
+                try:
+                    fd = fd_vjp(case, p, l, o.shape)
+                except Exception:
+                    continue
+                if np.all(np.isfinite(fd)):
+                    out["obligations"] += 1
+                    out["failures"].append({"obligation": "%s.backward.defined_on_domain[%s]" % (case.name, l.name), "what":
+                                            "at a legal input where a divisor of the backward computation is 0 the gradient is %s, finite differences of the forward give %s"
+                                            % (gi.tolist(), fd.tolist()), "reproduced": True,
+                                            "replay": {"inputs": p, "actual_grad": gi.tolist(), "expected_grad_finite_differences": fd.tolist(), "zero_divisor": str(t)[:200]}})
+                    return
 
 
 def _pc_holds(pc, env):
